@@ -116,7 +116,8 @@ type serverConn struct {
 	maxRequestTimer *time.Timer
 	maxIdleTimer    *time.Timer
 
-	closer chan struct{}
+	closer     chan struct{}
+	closerOnce sync.Once
 
 	// goAwayLck orders two things that happen on different goroutines: a stream
 	// being accepted (lastID moves) and a GOAWAY being written (lastID is read
@@ -148,7 +149,11 @@ func (sc *serverConn) closeIdleConn() {
 	if sc.debug {
 		sc.logger.Printf("Connection is idle. Closing\n")
 	}
-	close(sc.closer)
+
+	// The timer can fire more than once: a request that reaches the stream loop
+	// just before it notices the shutdown rearms it. Closing the channel a
+	// second time is a panic on a timer goroutine, which nothing recovers.
+	sc.closerOnce.Do(func() { close(sc.closer) })
 }
 
 func (sc *serverConn) Handshake() error {
